@@ -103,6 +103,7 @@ def main(ctx: Ctx):
         # the client vanishes while the backend is still starting up (after the control connect, before the runtime info)
         for how in ('fin', 'rst'):
             faults.append(('handshake', 'worker-slow', 'connect-close', how))
+            faults.append(('handshake', 'worker-slow', 'during-startup', how))
         if not T:
             keep = [f for f in faults if f[0] == 'handshake' or (f[0] == 'cut' and f[2] == len(streams[f[1]]))]
             cuts = [f for f in faults if f[0] == 'cut' and f[2] != len(streams[f[1]])]
